@@ -18,6 +18,34 @@ fn wview(dict: &sudachi::dic::dictionary::JapaneseDictionary, wid: WordId, s: In
         "reading": cps(wi.reading_form()), "a": w(wi.a_unit_split()), "b": w(wi.b_unit_split()), "ws": w(wi.word_structure()), "syn": wi.synonym_group_ids()}))
 }
 
+fn wi_view(wi: &sudachi::dic::lexicon::word_infos::WordInfo) -> Value {
+    let w = |v: &[WordId]| v.iter().map(|x| json!([x.dic(), x.word()])).collect::<Vec<_>>();
+    json!({"surface": cps(wi.surface()), "hwl": wi.head_word_length(), "pos": wi.pos_id(), "norm": cps(wi.normalized_form()), "dform": cps(wi.dictionary_form()),
+        "reading": cps(wi.reading_form()), "a": w(wi.a_unit_split()), "b": w(wi.b_unit_split()), "ws": w(wi.word_structure()), "syn": wi.synonym_group_ids()})
+}
+
+/// the fields named by `bits` of a view
+fn restrict(v: &Value, bits: u32) -> Value {
+    let mut m = serde_json::Map::new();
+    for (name, bit) in FIELD_BITS.iter() {
+        if bits & bit != 0 { m.insert(name.to_string(), v[*name].clone()); }
+    }
+    Value::Object(m)
+}
+
+/// A small system dictionary whose split units have splits of their own (a unit of a C word is a B word with A units):
+/// what is read for a unit must not depend on the mode that produced it.
+const NESTED_LEX: &str = "東,7,7,4675,東,名詞,普通名詞,一般,*,*,*,ヒガシ,東,*,A,*,*,*,*\n京,7,7,4675,京,名詞,普通名詞,一般,*,*,*,キョウ,京,*,A,*,*,*,*\n都,8,8,2914,都,名詞,普通名詞,一般,*,*,*,ト,都,*,A,*,*,*,*\n東京,6,6,2816,東京,名詞,固有名詞,地名,一般,*,*,トウキョウ,東京,*,B,0/1,*,0/1,1/7\n東京都,6,8,1320,東京都,名詞,固有名詞,地名,一般,*,*,トウキョウト,東京都,*,C,3/2,3/2,3/2,2/9\n京都,6,6,5293,京都,名詞,固有名詞,地名,一般,*,*,キョウト,京都,*,B,1/2,*,1/2,*\n東京都京都,6,6,293,東京都京都,名詞,固有名詞,地名,一般,*,*,トウキョウトキョウト,東京都京都,*,C,3/2/5,4/5,4/5,*\nに,3,3,4481,に,助詞,格助詞,*,*,*,*,ニ,に,*,A,*,*,*,*\n";
+const NESTED_TEXTS: [&str; 6] = ["東京都", "東京都京都", "東京都に京都", "京都東京", "に東京都京都に東", "東京"];
+
+fn nested_world() -> tok::World {
+    let sys = crate::dicts::build_system(NESTED_LEX.as_bytes(), &crate::dicts::read("/repo/sudachi/tests/resources/matrix_10x10.def")).expect("nested dictionary");
+    let res = crate::dicts::resource_dir("fixture", &[("char.def", "/repo/sudachi/tests/resources/char.def")]);
+    let cfg = r#"{"characterDefinitionFile":"char.def","inputTextPlugin":[],"oovProviderPlugin":[{"class":"com.worksap.nlp.sudachi.SimpleOovPlugin","oovPOS":["名詞","普通名詞","一般","*","*","*"],"leftId":8,"rightId":8,"cost":6000}],"pathRewritePlugin":[]}"#;
+    let dict = crate::dicts::load(cfg, &res, sys, vec![]).expect("nested world");
+    tok::World { name: "nested".into(), dict: std::rc::Rc::new(dict), meta: json!({"n_path_rewrite": 0}) }
+}
+
 pub fn record(args: &[String]) -> i32 {
     quiet_panics();
     let out = &args[0];
@@ -55,22 +83,30 @@ pub fn record(args: &[String]) -> i32 {
             }
         }
     }
-    // (b) tokenizer level
+    // (b) tokenizer level: the fixture worlds with and without path-rewrite plugins, and a world whose split units have units of their own
+    let nested = nested_world();
     let mut texts_v: Vec<String> = texts::FIXTURE_SENTENCES.iter().take(40).map(|s| s.to_string()).collect();
     for _ in 0..ntexts { texts_v.push(texts::random_text(&mut rng, 7)); }
+    let mut jobs: Vec<(&tok::World, String)> = Vec::new();
     for (ti, text) in texts_v.iter().enumerate() {
-        let wi = if ti % 2 == 0 { 3 } else { 6 }; // "full" (with path-rewrite plugins) / "norewrite"
-        let world = &worlds[wi];
+        jobs.push((if ti % 2 == 0 { &worlds[3] } else { &worlds[6] }, text.clone())); // "full" (with path-rewrite plugins) / "norewrite"
+    }
+    for t in NESTED_TEXTS { jobs.push((&nested, t.to_string())); }
+    for (ji, (world, text)) in jobs.iter().enumerate() {
         let plain = world.meta["n_path_rewrite"] == 0;
+        let small = world.name == "nested" || ji < 6;
         for mi in 0..3 {
             let mode = tok::mode_of(mi);
-            let reference = analyse(world, mode, InfoSubset::all(), 0, text);
-            for k in 0..(nsub / 4).max(6) {
-                let bits = match k { 0 => 0u32, 1 => 1 | 4 | 8, 2 => 4, 3 => 1 | 4 | 8 | 64, _ => rng.below(1024) as u32 };
-                let order = k % 3;
-                let got = analyse(world, mode, InfoSubset::from_bits_truncate(bits), order, text);
+            let reference = analyse(world, mode, 1023, 0, text);
+            // every order of calls with the empty / surface-only / plugin-covering / split requests, then sampled requests
+            let mut reqs: Vec<(u32, usize)> = Vec::new();
+            if small { for b in [0u32, 1, 13, 64, 128, 77, 1023] { for o in 0..NORDERS { reqs.push((b, o)); } } }
+            else { for (k, b) in [0u32, 13, 4, 77, 64 | 128].iter().enumerate() { reqs.push((*b, (k + ji) % NORDERS)); } }
+            for k in 0..(nsub / 4).max(6) { reqs.push((rng.below(1024) as u32, (k + ji) % NORDERS)); }
+            for (bits, order) in reqs {
+                let got = analyse(world, mode, bits, order, text);
                 tr.emit(json!({"ev": "tsub", "world": world.name, "plain": plain, "mode": mi, "bits": bits, "order": order, "text": cps(text), "nbytes": text.len(),
-                               "res": got.0, "ms": got.1, "fres": reference.0, "full": reference.1}));
+                               "res": got.0, "ms": got.1, "req": got.2, "lreq": got.3, "fres": reference.0, "full": reference.1, "freq": restrict_all(&reference.4, bits)}));
             }
         }
     }
@@ -79,23 +115,56 @@ pub fn record(args: &[String]) -> i32 {
     0
 }
 
-/// order 0: create(mode) then set_subset; 1: create(C), set_subset, set_mode; 2: create(C), set_mode, set_subset, set_mode again
-fn analyse(world: &tok::World, mode: Mode, subset: InfoSubset, order: usize, text: &str) -> (String, Vec<Value>) {
-    let r = catch(std::panic::AssertUnwindSafe(|| -> Result<Vec<Value>, String> {
+pub const NORDERS: usize = 6;
+
+fn restrict_all(views: &[Value], bits: u32) -> Vec<Value> { views.iter().map(|v| restrict(v, bits)).collect() }
+
+/// The request is `bits` (1023 = every field); the tokenizer ends in `mode` after one of these call orders:
+///  0: create(mode), set_subset          1: create(C), set_subset, set_mode          2: create(C), set_mode, set_subset, set_mode again
+///  3: create(A), set_subset, set_mode   4: create(B), set_subset, set_mode(C), set_mode
+///  5: create(mode), set_subset, an analysis in each other mode in between (set_mode away and back, as a per-call mode override does)
+/// Returns (outcome, morphemes as [begin,end,dic,word], the requested fields of every morpheme as its word information shows them,
+/// the same fields of the same word read from the lexicon with every field loaded (null for OOV and merged tokens), every field as shown).
+fn analyse(world: &tok::World, mode: Mode, bits: u32, order: usize, text: &str) -> (String, Vec<Value>, Vec<Value>, Vec<Value>, Vec<Value>) {
+    let subset = InfoSubset::from_bits_truncate(bits);
+    let r = catch(std::panic::AssertUnwindSafe(|| -> Result<(Vec<Value>, Vec<Value>, Vec<Value>, Vec<Value>), String> {
+        let d = || world.dict.clone();
         let mut t = match order {
-            0 => { let mut t = StatefulTokenizer::new(world.dict.clone(), mode); t.set_subset(subset); t }
-            1 => { let mut t = StatefulTokenizer::new(world.dict.clone(), Mode::C); t.set_subset(subset); t.set_mode(mode); t }
-            _ => { let mut t = StatefulTokenizer::new(world.dict.clone(), Mode::C); t.set_mode(mode); t.set_subset(subset); t.set_mode(mode); t }
+            0 => { let mut t = StatefulTokenizer::new(d(), mode); t.set_subset(subset); t }
+            1 => { let mut t = StatefulTokenizer::new(d(), Mode::C); t.set_subset(subset); t.set_mode(mode); t }
+            2 => { let mut t = StatefulTokenizer::new(d(), Mode::C); t.set_mode(mode); t.set_subset(subset); t.set_mode(mode); t }
+            3 => { let mut t = StatefulTokenizer::new(d(), Mode::A); t.set_subset(subset); t.set_mode(mode); t }
+            4 => { let mut t = StatefulTokenizer::new(d(), Mode::B); t.set_subset(subset); t.set_mode(Mode::C); t.set_mode(mode); t }
+            _ => {
+                let mut t = StatefulTokenizer::new(d(), mode);
+                t.set_subset(subset);
+                for other in [Mode::A, Mode::B, Mode::C] {
+                    if other == mode { continue; }
+                    let old = t.set_mode(other);
+                    t.reset().push_str(text);
+                    let _ = t.do_tokenize();
+                    t.set_mode(old);
+                }
+                t
+            }
         };
         t.reset().push_str(text);
         t.do_tokenize().map_err(|e| format!("{:?}", e))?;
         let mut ml = MorphemeList::empty(world.dict.clone());
         ml.collect_results(&mut t).map_err(|e| format!("{:?}", e))?;
-        Ok(ml.iter().map(|m| json!([m.begin(), m.end(), m.word_id().dic(), m.word_id().word()])).collect())
+        let ms = ml.iter().map(|m| json!([m.begin(), m.end(), m.word_id().dic(), m.word_id().word()])).collect();
+        let shown: Vec<Value> = ml.iter().map(|m| wi_view(m.get_word_info())).collect();
+        let req = shown.iter().map(|v| restrict(v, bits)).collect();
+        let plain = world.meta["n_path_rewrite"] == 0;
+        let lreq = ml.iter().map(|m| {
+            if !plain || m.is_oov() { return json!({"none": 1}); }
+            match world.dict.lexicon().get_word_info_subset(m.word_id(), InfoSubset::all()) { Ok(wi) => restrict(&wi_view(&wi), bits), Err(_) => json!({"none": 1}) }
+        }).collect();
+        Ok((ms, req, lreq, shown))
     }));
     match r {
-        Ok(Ok(v)) => ("ok".into(), v),
-        Ok(Err(_)) => ("err".into(), vec![]),
-        Err(_) => ("panic".into(), vec![]),
+        Ok(Ok(v)) => ("ok".into(), v.0, v.1, v.2, v.3),
+        Ok(Err(_)) => ("err".into(), vec![], vec![], vec![], vec![]),
+        Err(_) => ("panic".into(), vec![], vec![], vec![], vec![]),
     }
 }
